@@ -1,7 +1,9 @@
 --------------------------- MODULE SlashingTrace ---------------------------
 (* Trace validation of executions recorded from the real key manager (harness/cmd/slashing -mode record)
    against Slashing.  One event per public call, logged at its return: name, arguments, the fault plan that
-   FIRED (none otherwise), the outcome, and the projection of the database after the call.  Executions are
+   FIRED (none otherwise; a persistent write fault "failall" is logged once, with the call that started it and the
+   number n of calls it lasts - the calls under its remainder are logged without a plan and the spec's `broken`
+   decides that their writes fail), the outcome, and the projection of the database after the call.  Executions are
    concatenated with "Reset" events.  The recorded requests respect the environment assumption (targets and
    slots not beyond the clock), otherwise no action matches and the trace is rejected. *)
 EXTENDS Slashing, Json, Sequences
@@ -26,7 +28,7 @@ TInit == Init /\ l = 1
 TReset == /\ IsEv("Reset")
           /\ clock' = SPE
           /\ st' = [att |-> NoAtt, prop |-> NoProp, accs |-> {}, db |-> 0, mem |-> 0, gen |-> 1]
-          /\ signedAtt' = {} /\ signedBlk' = {} /\ pend' = {} /\ nfaults' = 0 /\ act' = [name |-> "init"]
+          /\ signedAtt' = {} /\ signedBlk' = {} /\ pend' = {} /\ nfaults' = 0 /\ broken' = NoBroken /\ act' = [name |-> "init"]
 TTick    == IsEv("Tick") /\ Tick /\ clock' = Ev.clock
 TRestart == IsEv("Restart") /\ Restart
 TAdd     == IsEv("AddShare") /\ AddShare(Plan(Ev.fault)) /\ PostOK
